@@ -144,14 +144,12 @@ def _relay_cancel(c):
 
 class C08(Sides, C08Base):
     # the scheduler's raptor backlog, the third of the four places where cancellation is implemented
-    # (harness/relay.py: real work / _schedule_incoming / control_cb(cancel_tasks, register, unregister), RP.Relay.Model)
-    side_specs = [Spec('relay', 'relay', ['cancel_in_backlog', 'bystanders_unaffected', 'no_forward_after_final',
-                                          'exactly_one_place', 'linearizable'], only=_relay_cancel),
-                  # where the request starts: TaskManager.cancel_tasks / Task.cancel build the message whose `uids`
-                  # list the agent's handlers iterate (harness/cancelreq.py, RP.CancelReq.Model)
-                  Spec('client', 'cancelreq', ['request_names_exactly_the_named_tasks',
-                                               'component_registers_exactly_the_named_tasks'])]
-    clauses = C08Base.clauses + side_specs[0].clause_names() + side_specs[1].clause_names()
+    # (harness/relay.py: real work / _schedule_incoming / _control_cb + control_cb(cancel_tasks, register, unregister) /
+    # is_canceled, RP.Relay.Model)
+    side_specs = [Spec('relay', 'relay', ['cancel_in_backlog', 'cancel_on_queue', 'bystanders_unaffected',
+                                          'no_forward_after_final', 'exactly_one_place', 'linearizable'],
+                       only=_relay_cancel)]
+    clauses = C08Base.clauses + side_specs[0].clause_names()
     extra_targets = C08Base.extra_targets + ['Relay/Oracle.vo', 'Relay/Proofs.vo', 'Relay/History.vo', 'Relay/Frame.vo',
                                              'Relay/OracleProofs.vo']
     model_targets = C08Base.model_targets + ['Relay/Oracle.vo']
